@@ -50,7 +50,8 @@ def _build(need_plain=True, need_test=False):
         tasks.append(("plain", lambda: vlib.build("prodproto")))
     if need_test:
         tasks.append(("test", lambda: vlib.build("prod", testmode=True)))
-    return vlib.parallel(tasks, max_workers=2)
+    # with VERIF_REPO (mutant runs) vlib.build re-creates a private copy of the harness module: those builds must not overlap
+    return vlib.parallel(tasks, max_workers=2 if vlib.REPO == "/repo" else 1)
 
 
 def _job(chk, tag, binary, testmode, args, stats, on_rows, chunk, timeout):
@@ -60,6 +61,9 @@ def _job(chk, tag, binary, testmode, args, stats, on_rows, chunk, timeout):
         vlib.run_driver(binary, list(args) + ["-out", out, "-seed", str(chk.seed), "-tier", chk.tier], testmode=testmode, timeout=timeout)
         rows = vlib.read_ndjson(out)
         hdr, body = rows[0], rows[1:]
+        for r in body:      # a round that hit the harness's per-round timeout (overloaded machine) is not a verdict
+            if any(x.get("timeout") for x in r.get("rejects", []) if isinstance(x, dict)):
+                raise vlib.MachineryError("round timeout in %s: %s" % (tag, r.get("k")))
         on_rows(tag, body)
         if not body:
             return 0
